@@ -44,7 +44,7 @@ def run(rep, tier, seed):
     rep.ob('correspondence:brownian-model', f"{c.get('configs', 0)} objects / {c.get('queries', 0)} queries", c['ok'],
            json.dumps(c.get('mismatches') or c.get('error', ''), default=str)[:1800])
     rep.cov['correspondence'] = {k: v for k, v in c.items() if k != 'mismatches'}
-    fails, st = ob.reproducibility_search(rng, 10 if tier == 'quick' else 200, 40 if tier == 'quick' else 120)
+    fails, st = core.safe(ob.reproducibility_search, rng, 10 if tier == 'quick' else 200, 40 if tier == 'quick' else 120)
     rep.ob('oracle:reproducibility-on-real-objects', f"{st['configs']} configs", not fails, json.dumps(fails[:1], default=str)[:1200])
     rep.cov['real_code_oracle'] = st
     rep.cov.update(evaluations=st['same_seq'] + st['dyadic_pairs'], distinct_nontrivial=st['dyadic_pairs'],
